@@ -135,6 +135,9 @@ func verdictCase(r *rng.R, dir string) string {
 	}
 	if scriptBroken {
 		sb.WriteString("this is not lua\n")
+	} else if r.Chance(25) {
+		// a script may end with a chunk-level return: it has nothing to do with the verdict
+		sb.WriteString([]string{"return true\n", "return false\n", "return 1, 2, 3\n"}[r.Intn(3)])
 	}
 	writeFile(dir, "case.lua", []byte(sb.String()))
 	var code []byte
@@ -412,6 +415,15 @@ func dirtyPool(spec string, trap bool) []dirtyCase {
 	case "F256_768K":
 		high = "write_byte(0, 0x80); write_byte(13, 95); write_byte(0xA055, 0x7C); write_byte(12, 70); write_byte(0x8001, 0x7D)"
 	}
+	longOnly := "write_byte_long(0x3200, 0x4D)"
+	switch {
+	case strings.HasPrefix(spec, "XSixteen"):
+		longOnly = "write_byte_long(0xA000 + 9*8192 + 17, 0x4D); write_byte_long(0xA000 + 2*8192, 0x4E)"
+	case strings.HasPrefix(spec, "GeoRam"):
+		longOnly = "write_byte_long(0x10000 + 5*16384 + 3*256 + 9, 0x4D); write_byte_long(0x10000, 0x4E)"
+	case strings.HasPrefix(spec, "F256"):
+		longOnly = "write_byte_long(0x70000 + 33, 0x4D)"
+	}
 	pool := []dirtyCase{
 		// no instruction executed (the cycle counter stays 0), but the script touched memory
 		{"zerocycle", prg(0x0800, 0x00), "function arrange() write_byte(0x0340, 7) read_byte(0x0340) read_byte(0x0341) end\nfunction assert() return true end\n" + trapFn},
@@ -420,6 +432,8 @@ func dirtyPool(spec string, trap bool) []dirtyCase {
 		// trap address with no trap function of its own
 		{"rerun", prg(0x0800, 0xE8, 0xE8, 0x00), "function arrange() set_pc(load_address) end\nfunction assert() return true end\n"},
 		{"trapless", prg(0x0800, 0xA9, 0x42, 0x8D, 0x00, 0x7F, 0xE8, 0x00), "function arrange() end\nfunction assert() return true end\n"},
+		// expansion / banked memory written ONLY through the linear view
+		{"longonly", prg(0x0800, 0xE8, 0x00), "function arrange() " + longOnly + " end\nfunction assert() return true end\n" + trapFn},
 		{"highbank", prg(0x0800, 0xE8, 0x00), "function arrange() " + high + " end\nfunction assert() return true end\n" + trapFn},
 	}
 	return append([]dirtyCase{
@@ -469,7 +483,25 @@ func isolationRun(spec string, model string, prexec, trap bool, dir string, case
 		fa.bins[dc.name+".a"] = writeFile(dir, dc.name+".bin", dc.driver)
 		writeFile(dir, dc.name+".lua", []byte(dc.script))
 	}
-	fa.bins["setup.a"] = writeFile(dir, "setup.bin", prg(0x0900, 0xA9, 0xAB, 0x8D, 0x00, 0x02, 0xA2, 0x07, 0x00))
+	// the setup program leaves a marker in RAM and — on the banked machines — banking registers that differ from their
+	// power-on values AND from each other (the image every case has to start from includes them)
+	setup := []uint8{0xA9, 0xAB, 0x8D, 0x00, 0x02, 0xA2, 0x07}
+	sta := func(v uint8, a uint16) { setup = append(setup, 0xA9, v, 0x8D, uint8(a), uint8(a>>8)) }
+	switch {
+	case strings.HasPrefix(spec, "XSixteen"):
+		sta(5, 0x0000)
+		sta(3, 0x0001)
+		sta(0x61, 0xA005)
+	case strings.HasPrefix(spec, "GeoRam"):
+		sta(3, 0xDFFF)
+		sta(2, 0xDFFE)
+		sta(0x62, 0xDE05)
+	case strings.HasPrefix(spec, "F256"):
+		sta(0x02, 0x0001)
+		sta(0x63, 0xC005)
+	}
+	setup = append(setup, 0x00)
+	fa.bins["setup.a"] = writeFile(dir, "setup.bin", prg(0x0900, setup...))
 	cfg := emuconfig.DefaultConfig()
 	cfg.MemSpec = spec
 	cfg.Model = model
